@@ -14,19 +14,19 @@ import (
 // App is the simulated application: a SQLite client issuing generated,
 // fully explicit statements. All values come from the statement's own seed.
 type App struct {
-	Path     string
-	AutoCkpt int
+	Path       string
+	AutoCkpt   int
 	CachePages int
-	db       *sql.DB
-	conn     *sql.Conn // main connection
-	reader   *sql.Conn // long reader
-	readerTx bool
-	hold     *sql.Conn // held write transaction
-	holding  bool
-	Log      []string // result of each step (for determinism diff)
-	Commits  int
-	Busy     int
-	Errors   []string // unexpected errors
+	db         *sql.DB
+	conn       *sql.Conn // main connection
+	reader     *sql.Conn // long reader
+	readerTx   bool
+	hold       *sql.Conn // held write transaction
+	holding    bool
+	Log        []string // result of each step (for determinism diff)
+	Commits    int
+	Busy       int
+	Errors     []string // unexpected errors
 }
 
 func (a *App) dsn() string {
@@ -81,7 +81,9 @@ func CreateAppDB(path string, cfg *Config, seed uint64) (*App, error) {
 		}
 	}
 	var mode string
-	if err := db.QueryRow("PRAGMA journal_mode=wal").Scan(&mode); err != nil || mode != "wal" {
+	if cfg.InitRollbackJournal {
+		// left in rollback mode
+	} else if err := db.QueryRow("PRAGMA journal_mode=wal").Scan(&mode); err != nil || mode != "wal" {
 		db.Close()
 		return nil, fmt.Errorf("journal_mode=wal: %v %q", err, mode)
 	}
